@@ -47,7 +47,7 @@ def body_form(ctx, rule, inst, U, imp, fn, want, where=None, inline=(), record=N
         r = same_as_default(U, imp, b, want)
         if r is True:
             ok = True
-        else:
+        elif r is not None:
             why = " — and it is not shown to compute what that call computes (%s)" % r
     ctx.ob(rule, inst, ok, "body is %s, expected %s%s" % (obs, T.show(S.strip_R(want)), why), b["span"])
     return ok
@@ -58,7 +58,7 @@ def same_as_default(U, imp, b, want):
     trait, name = want[1].split("::")
     db = U.get_body({"HasRefUnit": G.HRU, "Quantity": G.QTY}[trait] + name)
     if db is None:
-        return "no default body"
+        return None     # a required method (new / amount / unit): nothing to expand
     args = list(want[3])
     try:
         ev = T.Evaluator(U, keep_tags=True, inline={"*"}, stop=set())
